@@ -107,6 +107,23 @@ def rule_a(ctx, ix):
         ctx.ob(R, g.construct, 'replace_ids rewrites %s' % fld, fld in eff.writes,
                detail='BinaryComponentLink.replace_ids does not rewrite %s: after an identifier is replaced the link still refers '
                       'to the old one' % fld, where=g.where)
+    # ... each operand on its own: an expression may name one attribute on both sides (x * x), so what is done to the right
+    # operand must not depend on a test of the left one (and the other way round)
+    from .. import cond as _cd
+    s_g = g.self_name
+    for fld, other in (('_left', '_right'), ('_right', '_left')):
+        for st in walk_no_nested(g.node):
+            touches = (isinstance(st, ast.Assign) and any(unparse(t) == '%s.%s' % (s_g, fld) for t in st.targets)) or \
+                (isinstance(st, ast.Expr) and isinstance(st.value, ast.Call) and call_name(st.value) == 'replace_ids'
+                 and unparse(st.value.func.value) == '%s.%s' % (s_g, fld))
+            if not touches:
+                continue
+            pc = _cd.path_condition(g.node, st, expand=False) or ('const', True)
+            foreign = sorted(a for a in _cd.atoms(pc) if ('%s.%s' % (s_g, other)) in a)
+            ctx.ob(R, '%s %s `%s`' % (g.construct, fld, norm(st)[:50]), 'the %s operand is handled independently of the other one' % fld[1:], not foreign,
+                   detail='BinaryComponentLink.replace_ids handles %s only under `%s`, a condition on the OTHER operand: for an expression '
+                          'with the same attribute on both sides (x * x, (x + 1) / x) one side keeps the old identifier and the derived '
+                          'attribute raises IncompatibleAttribute after Data.update_id' % (fld, pc), where=where(g, st))
     # nested links are followed
     ok = sum(1 for c in calls_in(g.node) if call_name(c) == 'replace_ids' and 'super' not in unparse(c.func)) >= 2
     ctx.ob(R, g.construct, 'replace_ids recurses into operand links', ok,
